@@ -54,6 +54,22 @@ func frameFunc(line string) string {
 	return strings.TrimPrefix(f, "github.com/iotaledger/hive.go/")
 }
 
+// entryName strips closure suffixes (".func1", ".func1.2", ".gowrap1").
+func entryName(f string) string {
+	for {
+		i := strings.LastIndexByte(f, '.')
+		if i < 0 {
+			return f
+		}
+		suf := f[i+1:]
+		if strings.HasPrefix(suf, "func") || strings.HasPrefix(suf, "gowrap") || strings.Trim(suf, "0123456789") == "" {
+			f = f[:i]
+			continue
+		}
+		return f
+	}
+}
+
 // bothStacksInside reports whether each of the two access stacks has a frame in one of
 // the three packages, and a key made of the innermost such frame of each stack (else the
 // innermost frame).
@@ -78,8 +94,8 @@ func bothStacksInside(text string) (bool, string) {
 			if first == "" {
 				first = f
 			}
-			if in == "" && touches("hive.go/"+f) {
-				in = f
+			if touches("hive.go/" + f) {
+				in = entryName(f) // outermost frame inside the packages = the API entry point of the operation
 			}
 		}
 		if in != "" {
